@@ -7,6 +7,7 @@ import (
 	"golang.org/x/net/html"
 
 	"verif/harness/internal/core"
+	"verif/harness/internal/gen"
 	"verif/harness/internal/oracle"
 	"verif/harness/internal/spec"
 )
@@ -63,6 +64,40 @@ func firstDiffToken(a, b string) string {
 			}
 			if ta[i].Name != tb[i].Name || ta[i].Type != tb[i].Type {
 				return "tag-sequence"
+			}
+			// same tag: same attributes in another order?
+			if len(ta[i].Attrs) == len(tb[i].Attrs) {
+				ma, forced := map[string]int{}, false
+				for _, x := range ta[i].Attrs {
+					ma[x.Key+"\x00"+x.Val]++
+				}
+				for _, x := range tb[i].Attrs {
+					ma[x.Key+"\x00"+x.Val]--
+				}
+				same := true
+				for _, n := range ma {
+					if n != 0 {
+						same = false
+					}
+				}
+				if same {
+					for j := range ta[i].Attrs {
+						if ta[i].Attrs[j] != tb[i].Attrs[j] {
+							switch ta[i].Attrs[j].Key {
+							case "rel", "target", "crossorigin", "sandbox":
+								forced = true
+							}
+							switch tb[i].Attrs[j].Key {
+							case "rel", "target", "crossorigin", "sandbox":
+								forced = true
+							}
+						}
+					}
+					if forced {
+						return "attr-order:forced-attribute-moved"
+					}
+					return "attr-order"
+				}
 			}
 			// same tag: which attribute differs?
 			for j := 0; j < len(ta[i].Attrs) && j < len(tb[i].Attrs); j++ {
@@ -126,6 +161,57 @@ func runC20(ctx *core.Ctx) {
 		for i := 0; i < ctx.N(150, 400); i++ {
 			ob := observe(env, env.HostileInput(cs.R), 0)
 			cs.Eval()
+			judge(cs, ob, lc, false)
+		}
+		cs.Flush(lc)
+	})
+	// forced attributes: every combination of "which managed attributes do the rules also allow"
+	// x link options x crossorigin/sandbox, on the elements that receive forced attributes
+	ctx.Run("forced-attributes", 1<<9, func(cs *core.Case) {
+		m := cs.Index
+		ops := []spec.Op{{K: spec.KNew}, {K: spec.KAllowAttrs, Attrs: []string{"href", "src", "x"}, Scope: "els", Names: []string{"a", "area", "link", "img", "audio"}},
+			{K: spec.KSchemes, Names: []string{"http", "https"}}, {K: spec.KSwitch, Names: []string{spec.SwRelative}, B: true}}
+		var allowed []string
+		for i, k := range []string{"rel", "target", "crossorigin", "sandbox"} {
+			if m&(1<<uint(i)) != 0 {
+				allowed = append(allowed, k)
+			}
+		}
+		if len(allowed) > 0 {
+			ops = append(ops, spec.Op{K: spec.KAllowAttrs, Attrs: allowed, Scope: "global"})
+		}
+		for i, n := range []string{spec.SwNoFollow, spec.SwNoReferrerFQ, spec.SwTargetBlank, spec.SwCrossOrigin} {
+			if m&(1<<uint(4+i)) != 0 {
+				ops = append(ops, spec.Op{K: spec.KSwitch, Names: []string{n}, B: true})
+			}
+		}
+		if m&(1<<8) != 0 { // (iframe is a raw-text element and outside the class, so no sandbox here)
+			ops = append(ops, spec.Op{K: spec.KSwitch, Names: []string{spec.SwNoReferrer}, B: true})
+		}
+		env := NewEnv(ops)
+		if ok, why := inClassC20(env.Spec); !ok {
+			cs.Skip("forced-attributes policy outside the class: " + why)
+			return
+		}
+		lc := core.LocalCounts{}
+		r := cs.R
+		for i := 0; i < 60; i++ {
+			el := gen.Pick(r, []string{"a", "area", "link", "img", "audio"})
+			nd := &gen.Node{Name: el, NoEnd: true}
+			k := "href"
+			if el == "img" || el == "audio" {
+				k = "src"
+			}
+			nd.Attrs = append(nd.Attrs, [2]string{k, gen.Pick(r, []string{"http://example.org/", "/rel", "https://example.org/a?b=c"})})
+			for _, extra := range []string{"rel", "target", "crossorigin", "sandbox", "x"} {
+				if r.Intn(3) == 0 {
+					nd.Attrs = append(nd.Attrs, [2]string{extra, gen.Pick(r, []string{"nofollow", "_blank", "anonymous", "allow-forms", "y", "noopener x", "_self"})})
+				}
+			}
+			r.Shuffle(len(nd.Attrs), func(i, j int) { nd.Attrs[i], nd.Attrs[j] = nd.Attrs[j], nd.Attrs[i] })
+			ob := observe(env, gen.Serialize(r, []*gen.Node{nd}, 0), 0)
+			cs.Eval()
+			lc["forced_attribute_cases"]++
 			judge(cs, ob, lc, false)
 		}
 		cs.Flush(lc)
